@@ -1,18 +1,139 @@
 import Driver.Common
+import LinkVerif.Model.PeerBits
+import LinkVerif.Model.PeerState
 
 namespace Driver.C16
-open Driver
+open Driver Go.Proto Model.PeerInput Model.PeerBits Model.PeerState
 
-/-- the claim itself (Props.C16 for the modelled handlers; the fuzz searches the rest): whatever was injected, the
-consensus routine is alive, unsigned input changed nothing, no single message caused a large allocation -/
-def step (s : Unit) (toks : List String) : Unit × String :=
+/-! ### text format of bit arrays: `nil` | `<bits>:<hex>,<hex>…` | `<bits>:-` -/
+
+def hexNat? (s : String) : Option Nat :=
+  s.toList.foldlM (fun acc c => (hexDigit? c).map (fun d => acc * 16 + d)) 0
+
+def natHex (n : Nat) : String :=
+  if n = 0 then "0" else
+  let rec go (fuel n : Nat) (acc : List Char) : List Char :=
+    match fuel with
+    | 0 => acc
+    | fuel + 1 => if n = 0 then acc else go fuel (n / 16) (hexChar (n % 16) :: acc)
+  String.ofList (go 17 n [])
+
+def parseBA? (s : String) : Option (Option BA) :=
+  if s == "nil" then some none else
+  match s.splitOn ":" with
+  | [b, es] => do
+    let bits ← b.toInt?
+    let ws ← (splitComma es).mapM hexNat?
+    some (some ⟨bits, ws.map (BitVec.ofNat 64)⟩)
+  | _ => none
+
+def showBA : Option BA → String
+  | none => "nil"
+  | some b => toString b.bits ++ ":" ++ (if b.elems.isEmpty then "-" else ",".intercalate (b.elems.map (fun w => natHex w.toNat)))
+
+def argBA (toks : List String) (k : String) : Option BA := ((arg? toks k).bind parseBA?).getD none
+def argI (toks : List String) (k : String) : Int := (argInt? toks k).getD 0
+def argN (toks : List String) (k : String) : Nat := (argNat? toks k).getD 0
+
+def showFault {α : Type} (f : α → String) : Except Fault α → String
+  | .ok x => f x
+  | .error (.panic _) => "panic"
+  | .error (.oom n) => "oom " ++ toString n
+
+def b01 (b : Bool) : String := if b then "1" else "0"
+
+/-- unit-level bit array ops (the real `cmn.BitArray` answers the same lines) -/
+def baOp (fn : String) (toks : List String) : String :=
+  let a := argBA toks "a"
+  let b := argBA toks "b"
+  let i := argI toks "i"
+  let v := argI toks "v" != 0
+  match fn with
+  | "new" => showFault showBA (newBitArray i)
+  | "size" => toString (size a)
+  | "get" => showFault b01 (getIndex a i)
+  | "set" => showFault (fun (r : Bool × Option BA) => b01 r.1 ++ " " ++ showBA r.2) (setIndex a i v)
+  | "copy" => showBA a
+  | "or" => showFault showBA (or a b)
+  | "and" => showFault showBA (and a b)
+  | "not" => showBA (not a)
+  | "sub" => showFault showBA (sub a b)
+  | "update" => showBA (update a b)
+  | "pick" => showFault (fun (c : List Int) => if c.isEmpty then "none" else "some") (pick a)
+  | _ => "bad-op"
+
+/-! ### peer state -/
+
+def showRef (ps : PS) (seen : List Nat) (r : Ref) : String × List Nat :=
+  match r with
+  | none => ("nil", seen)
+  | some k =>
+    let (cls, seen) := match seen.idxOf? k with
+      | some c => (c, seen)
+      | none => (seen.length, seen ++ [k])
+    ("#" ++ toString cls ++ ":" ++ showBA (ps.get (some k)), seen)
+
+def dump (ps : PS) : String :=
+  let p := ps.prs
+  let (parts, s) := showRef ps [] p.parts
+  let (pol, s) := showRef ps s p.pol
+  let (pv, s) := showRef ps s p.prevotes
+  let (pc, s) := showRef ps s p.precommits
+  let (lc, s) := showRef ps s p.lastCommit
+  let (cc, _) := showRef ps s p.catchup
+  s!"h={p.height} r={p.round} s={p.step} p={b01 p.proposal} pt={p.partsTotal} pbp={parts} polr={p.polRound} pol={pol} pv={pv} pc={pc} lcr={p.lastCommitRound} lc={lc} ccr={p.catchupRound} cc={cc}"
+
+def psOp (ps : PS) (fn : String) (toks : List String) : PS × String :=
+  let h := argN toks "h"
+  let r := argI toks "r"
+  let t := argN toks "t"
+  let i := argI toks "i"
+  let fin (x : Except Fault PS) : PS × String :=
+    match x with
+    | .ok ps' => (ps', dump ps')
+    | .error (.panic _) => (ps, "panic")
+    | .error (.oom n) => (ps, "oom " ++ toString n)
+  match fn with
+  | "nrs" => fin (.ok (applyNewRoundStep ps h r (argN toks "s") (argI toks "lcr")))
+  | "commitstep" => fin (.ok (applyCommitStep ps h (argI toks "total") (argN toks "hash") (argBA toks "b")))
+  | "pol" => fin (.ok (applyProposalPOL ps h r (argBA toks "b")))
+  | "hasvote" => fin (applyHasVote ps h r t i)
+  | "vsb" => fin (applyVoteSetBits ps h r t (argBA toks "b") (argBA toks "ours"))
+  | "proposal" => fin (setHasProposal ps h r (argI toks "total") (argN toks "hash") (argI toks "polr"))
+  | "part" => fin (setHasProposalBlockPart ps h r i)
+  | "ensure" => fin (ensureVoteBitArrays ps h (argI toks "n"))
+  | "sethasvote" => fin (setHasVote ps h r t i)
+  | "onvote" => fin (onVote ps (argN toks "nh") (argI toks "vs") (argI toks "lcs") h r t i)
+  | "initparts" => fin (initProposalBlockParts ps (argI toks "total") (argN toks "hash"))
+  | "pick" =>
+    let v : Votes := { height := h, round := r, type := t, size := argI toks "size", isCommit := argI toks "commit" != 0, bits := argBA toks "b" }
+    let choice := (arg? toks "choice").bind String.toInt?
+    match pickVoteToSend ps v choice with
+    | .ok (ps', picked, possible) =>
+      if !possible then (ps', "badchoice")
+      else (ps', (match picked with | .nothing => "none" | .vote k => "vote:" ++ toString k) ++ " | " ++ dump ps')
+    | .error (.panic _) => (ps, "panic")
+    | .error (.oom n) => (ps, "oom " ++ toString n)
+  | _ => (ps, "bad-op")
+
+/-- the claim itself for the simulation ops (Props.C16 for the modelled handlers; the fuzz searches the rest): whatever was
+injected, the consensus routine is alive, unsigned input changed nothing, no single message caused a large allocation;
+one iteration of every per-peer gossip routine on the peer state the hostile messages built neither panics nor hangs and
+sends only what the node has -/
+def step (s : PS) (toks : List String) : PS × String :=
   match toks with
-  | "case" :: _ => (s, "ok")
+  | "case" :: _ => ({}, "ok")
   | "fuzz" :: _ => (s, "ok")
   | "inject" :: _ => (s, "ok")
+  | "gossip" :: _ => (s, "ok")
+  | "gscen" :: _ => (s, "ok")
   | "diag" :: _ => (s, "dead=0 statechanged=0 bigalloc=0")
+  | "gdiag" :: _ => (s, "dead=0 hung=0 badsend=0 bigalloc=0")
+  | "bacheck" :: _ => (s, "badpick=0")
+  | "ba" :: fn :: rest => (s, baOp fn rest)
+  | "ps" :: fn :: rest => psOp s fn rest
   | _ => (s, "bad-op")
 
-def machine : Machine := { σ := Unit, init := (), step := step }
+def machine : Machine := { σ := PS, init := {}, step := step }
 
 end Driver.C16
